@@ -207,7 +207,7 @@ static int run(const uint8_t *tp_, size_t len, struct vp_report *rep, unsigned f
     tp_init(&c->t, tp_, len);
     c->rep = rep; c->render = flags & VP_RENDER; c->flags = flags; c->pat = 2463534242u; c->hash = VP_HASH_INIT;
     c->max_alloc = 64;
-    c->planar_check = snd_check; c->planar_free = NULL;
+    c->planar_check = snd_check;
     int maxops = (flags & VP_THOROUGH) ? MAXOPS_THOROUGH : MAXOPS;
 
     static const int depths[] = { 0, 1, 4 }, sss[] = { 1, 2, 4, 8 }, aligns[] = { 0, 16, 32 };
